@@ -8,35 +8,38 @@ import Chewing.Proofs.TrieLink
 Models: `Model/MapSpec.lean` (the abstract map and what a correct answer is), `Model/TrieBuf.lean`
 (`Trie` read side, `TrieBuilder`, `TrieBuf` with snapshot / pending tree / graveyard and the
 *sequential* snapshot writer), `Model/Layered.lean` (the shared de-duplication loop, `Layered`).
-The models describe the repository **after** the two `fix:` commits of this package:
-F09 (`add_phrase`/`update_phrase` lift the tombstone) and F11 (`Trie::lookup_first_n_phrases` truncates).
+The models describe the repository **after** the four `fix:` commits of this property:
+F09 (`add_phrase`/`update_phrase` lift the tombstone), F11 (`Trie::lookup_first_n_phrases` truncates),
+F10 (8e6d504: a pending entry replaces the persisted entry of the same key in `entries()` and in
+lookups) and MaxCodePointPhrase (2c45871: a lookup scans *all* pending phrases of the syllables).
 
 Result in one paragraph.  *State refinement holds for every history* (`triebuf_refines`): whatever
 sequence of add / update / remove / flush / reopen / close-and-open is applied to an in-memory or a
 file-backed `TrieBuf`, the map it denotes is the one `MapSpec` computes, and `add_phrase` is rejected
-exactly on live keys.  The *answers* (`lookup`, `entries`) are those of that map in every state of an
-in-memory dictionary (`mem_answers`) and in every state of a file-backed one that is outside two
-decidable classes, which are genuine defects of the code (known findings, refutations below):
+exactly on live keys.  The *answers* of **exact lookups and of the enumeration** are those of that map
+in **every** state of every history, in-memory or file-backed, with no precondition on the operations
+(`C09_exact`, `lookup_exact`, `entries_exact`).  *Prefix* (`FuzzyPartialPrefix`) lookups are the map's
+outside one decidable class, which is a genuine defect of the code (known finding F36, refutations
+below):
 
-* `shadowed` — class **UpdatePersisted** (F10): a live key that is both in the persisted snapshot and
-  in the pending tree (after `update_phrase`, or remove + re-add, of a persisted entry, until the next
-  snapshot is adopted): `entries()` yields it twice and `lookup` reports the larger of the two values.
-  Even then the *set of phrases* a lookup returns is right (`lookup_phrases`).
 * `fuzzyClass` — class **FuzzyOverTombstoneOrPending** (F36): prefix lookups only scan persisted
-  leaves, add the pending entries of exactly the query and filter tombstones keyed by the query.
+  leaves, add the pending entries of exactly the query and filter pending keys / tombstones keyed by
+  the query (`Trie::lookup_all_phrases` returns phrases without the key they were found under).
 
-Both classes are *transient* and *exactly characterised*: `entries()` is a correct enumeration iff no
-key is shadowed (`entries_exact_iff`), inside the class the lookup reports the larger of the persisted
-and the pending frequency (`shadowed_lookup_reports_larger`), and after **any** history
-`reopen; flush; reopen` (writer drained, snapshot taken and adopted) or close-and-open leaves nothing
-pending, so that every answer — exact, prefix, enumeration — is the map's (`adoption_answers`,
-`close_open_answers`, §6a).  `Layered` is treated for arbitrary system layers and a user layer under any
-history applied through `Layered` itself (`layered_history`, `layered_history_file`).  The provided
-trait methods `lookup_first_phrase` / `lookup_all_phrases` are the head / the whole of the full result.
+The class is *transient*: after **any** history `reopen; flush; reopen` (writer drained, snapshot taken
+and adopted) or close-and-open leaves nothing pending, so that every answer — exact, prefix,
+enumeration — is the map's (`adoption_answers`, `close_open_answers`, §6a).  `Layered` is treated for
+arbitrary system layers and a user layer under any history applied through `Layered` itself
+(`layered_history`, `layered_history_file`).  The provided trait methods `lookup_first_phrase` /
+`lookup_all_phrases` are the head / the whole of the full result.
 
-Precondition on operations (`OpOk`): a phrase text does not begin with U+10FFFF — `entries_iter_for`
-scans the pending tree up to the *exclusive* bound `MAX_PHRASE = "\u{10FFFF}"`
-(`max_code_point_phrase_refuted`, class **MaxCodePointPhrase**).
+History of the statement: until fix 8e6d504 the exact lookup and the enumeration carried the exclusion
+`shadowed` (class **UpdatePersisted**, F10: a live key both persisted and pending was enumerated twice
+and looked up with the larger of the two frequencies; `entries_exact_iff` and
+`shadowed_lookup_reports_larger` characterised the old behaviour exactly and are gone with it), and
+every theorem carried the precondition `OpOk` (no phrase text beginning with U+10FFFF, class
+**MaxCodePointPhrase**: the pending range ended at the exclusive bound `"\u{10FFFF}"`).  Both are
+regression examples now (`update_persisted_fixed`, `max_code_point_phrase_fixed`).
 -/
 namespace Chewing.C09
 open Chewing MapSpec TrieBuf Trie
@@ -45,19 +48,18 @@ open Chewing MapSpec TrieBuf Trie
 
 /-- one step: invariant preserved, `abs (apply op s) = MapSpec.apply op (abs s)`, and the result of
     `add_phrase` (the only operation that can fail) is the specification's -/
-theorem refines_step (s : State) (hs : Inv s) (op : Op) (ho : OpOk op) :
+theorem refines_step (s : State) (hs : Inv s) (op : Op) :
     Inv (apply s op) ∧ abs (apply s op) = (abs s).apply op ∧
       ∀ k t, addOk s k t = (abs s).addOk k t :=
-  ⟨inv_apply hs op ho, abs_apply hs op, fun k t => addOk_eq hs k t⟩
+  ⟨inv_apply hs op, abs_apply hs op, fun k t => addOk_eq hs k t⟩
 
 /-- **all histories** from a fresh in-memory or file-backed dictionary -/
-theorem triebuf_refines (init : State) (hi : init = initMem ∨ init = initFile) (ops : List Op)
-    (hok : ∀ op ∈ ops, OpOk op) :
+theorem triebuf_refines (init : State) (hi : init = initMem ∨ init = initFile) (ops : List Op) :
     Inv (run init ops) ∧ abs (run init ops) = Map.empty.run ops := by
   rcases hi with rfl | rfl
-  · have := run_refines inv_initMem ops hok
+  · have := run_refines inv_initMem ops
     rw [abs_initMem] at this; exact this
-  · have := run_refines inv_initFile ops hok
+  · have := run_refines inv_initFile ops
     rw [abs_initFile] at this; exact this
 
 /-- the pending list of the model is, in every reachable state, strictly increasing in the order of
@@ -70,105 +72,51 @@ theorem pending_sorted (init : State) (hi : init = initMem ∨ init = initFile) 
 
 /-! ## 2. Answers -/
 
-/-- exact lookup outside class UpdatePersisted: exactly the live phrases of the syllables, each
-    once, with the stored frequency and time -/
-theorem lookup_exact (s : State) (hs : Inv s) (k : Key) (hn : ∀ t, shadowed s (k, t) = false) :
-    IsLookup (abs s) k (lookupAll s k .standard) := lookup_agrees hs k hn
+/-- exact lookup, in **every** state: exactly the live phrases of the syllables, each once, with the
+    stored frequency and time -/
+theorem lookup_exact (s : State) (hs : Inv s) (k : Key) :
+    IsLookup (abs s) k (lookupAll s k .standard) := lookup_agrees hs k
 
 /-- exact lookup in *every* state: the phrases returned are exactly the live ones, each once -/
 theorem lookup_phrases (s : State) (hs : Inv s) (k : Key) :
     (texts (lookupAll s k .standard)).Nodup ∧
       ∀ t, t ∈ texts (lookupAll s k .standard) ↔ ∃ v, abs s (k, t) = some v := lookup_texts hs k
 
-/-- enumeration outside class UpdatePersisted: exactly the live entries, each once -/
-theorem entries_exact (s : State) (hs : Inv s) (hn : ∀ key, shadowed s key = false) :
-    IsEntries (abs s) (entries s) := entries_agrees hs hn
+/-- enumeration, in **every** state: exactly the live entries, each once -/
+theorem entries_exact (s : State) (hs : Inv s) : IsEntries (abs s) (entries s) := entries_agrees hs
 
-/-- class UpdatePersisted is *exact* for the enumeration: a shadowed key is always enumerated twice, so
-    `entries()` is a correct enumeration **iff** no key is shadowed -/
-theorem entries_exact_iff (s : State) (hs : Inv s) :
-    IsEntries (abs s) (entries s) ↔ ∀ key, shadowed s key = false := by
-  refine ⟨?_, entries_agrees hs⟩
-  intro h key
-  obtain ⟨k, t⟩ := key
-  cases hsh : shadowed s (k, t) with
-  | false => rfl
-  | true =>
-    exfalso
-    obtain ⟨hg, ⟨w, hw⟩, l, hl, el, p, hp, ep⟩ := (shadowed_iff hs).mp hsh
-    have hnd := h.1
-    unfold TrieBuf.entries at hnd
-    rw [List.filter_append, List.map_append, List.nodup_append] at hnd
-    have hgrave : ∀ e : Entry, e.1 = k → e.2.text = t → (!(s.grave.contains (e.1, e.2.text))) = true := by
-      intro e e1 e2
-      rw [e1, e2]
-      simpa [List.contains_eq_mem] using hg
-    have m1 : (k, t) ∈ ((Trie.entries s.snap).filter (fun e => !(s.grave.contains (e.1, e.2.text)))).map
-        (fun e => (e.1, e.2.text)) := by
-      refine List.mem_map.mpr ⟨(k, p), List.mem_filter.mpr ⟨mem_trie_entries.mpr ⟨l, hl, el, hp⟩, hgrave _ rfl ep⟩, ?_⟩
-      simp [ep]
-    have m2 : (k, t) ∈ ((btEntries s.btree).filter (fun e => !(s.grave.contains (e.1, e.2.text)))).map
-        (fun e => (e.1, e.2.text)) := by
-      refine List.mem_map.mpr ⟨(k, mkPhrase t w), List.mem_filter.mpr ⟨mem_btEntries.mpr ⟨w, hw, rfl⟩, hgrave _ rfl rfl⟩, rfl⟩
-    exact hnd.2.2 _ m1 _ m2 rfl
+/-- on an exact lookup the de-duplication loop of `lookup_first_n_phrases` is the identity: the candidates
+    (persisted phrases without a pending entry, then pending entries, minus tombstones) already have
+    pairwise different texts -/
+theorem lookup_is_candidates (s : State) (hs : Inv s) (k : Key) :
+    lookupAll s k .standard = entriesIterFor s k .standard := lookupAll_std_eq_cands hs k
 
-/-- F10, exactly what the code does inside class UpdatePersisted: for a live key with the persisted
-    phrase `pOld` and the pending value `w`, the exact lookup returns one phrase with that text — the
-    persisted or the pending one — carrying the *larger* of the two frequencies (the map holds `w`) -/
-theorem shadowed_lookup_reports_larger (s : State) (hs : Inv s) (k : Key) (t : Text) (pOld : Phrase) (w : Val)
-    (hg : (k, t) ∉ s.grave) (hl : ∃ l ∈ s.snap, l.1 = k ∧ pOld ∈ l.2) (ht : pOld.text = t)
-    (hw : ((k, t), w) ∈ s.btree) :
-    abs s (k, t) = some w ∧
-    ∃ r ∈ lookupAll s k .standard, r.text = t ∧ (r = pOld ∨ r = mkPhrase t w) ∧
-      pOld.freq ≤ r.freq ∧ w.1 ≤ r.freq := by
-  have hcOld : pOld ∈ entriesIterFor s k .standard := (mem_cands hs).mpr ⟨by rw [ht]; exact hg, Or.inl hl⟩
-  have hcNew : mkPhrase t w ∈ entriesIterFor s k .standard :=
-    (mem_cands hs).mpr ⟨hg, Or.inr ⟨w, hw, rfl⟩⟩
-  refine ⟨(absOver_eq_some hs.snap hs.bt).mpr ⟨hg, Or.inl hw⟩, ?_⟩
-  obtain ⟨r, hr, er, hf⟩ := dedup_max hcOld
-  have ert : r.text = t := by rw [er, ht]
-  have hf2 : (mkPhrase t w).freq ≤ r.freq := dedup_highest hr hcNew (by rw [ert]; rfl)
-  refine ⟨r, hr, ert, ?_, hf, hf2⟩
-  obtain ⟨_, h⟩ := (mem_cands hs).mp (mem_of_mem_dedup hr)
-  rcases h with h | ⟨v, hv, hrv⟩
-  · left
-    have h1 : r ∈ Trie.lookupAll s.snap k .standard := (mem_lookupAll_std hs.snap).mpr h
-    have h2 : pOld ∈ Trie.lookupAll s.snap k .standard := (mem_lookupAll_std hs.snap).mpr hl
-    exact (leafOk_lookupAll_std hs.snap k).unique h1 h2 (by rw [ert, ht])
-  · right
-    rw [ert] at hv hrv
-    have := hs.bt.unique hv hw rfl
-    simp only [Prod.mk.injEq, true_and] at this
-    rw [hrv, this]
-
-/-- prefix lookup outside classes FuzzyOverTombstoneOrPending and UpdatePersisted: one entry per
-    phrase live under a matching key, with the highest frequency among them -/
+/-- prefix lookup outside class FuzzyOverTombstoneOrPending: one entry per phrase live under a matching
+    key, with the highest frequency among them -/
 theorem fuzzy_exact (s : State) (hs : Inv s) (q : Key) (hq : fuzzyMatch q q = true)
-    (hc : fuzzyClass s q = false) (hn : ∀ t, shadowed s (q, t) = false) :
-    IsFuzzyLookup fuzzyMatch (abs s) q (lookupAll s q .fuzzyPartialPrefix) := fuzzy_agrees hs q hq hc hn
+    (hc : fuzzyClass s q = false) :
+    IsFuzzyLookup fuzzyMatch (abs s) q (lookupAll s q .fuzzyPartialPrefix) := fuzzy_agrees hs q hq hc
 
 /-- an in-memory dictionary (no persisted layer) answers exact lookups and enumerations as the map,
-    in every state of every history — no exclusion -/
-theorem mem_answers (ops : List Op) (hok : ∀ op ∈ ops, OpOk op) :
+    in every state of every history (special case of `C09_exact`, kept for `layered_history`) -/
+theorem mem_answers (ops : List Op) :
     let s := run initMem ops
     abs s = Map.empty.run ops ∧ (∀ k, IsLookup (abs s) k (lookupAll s k .standard)) ∧ IsEntries (abs s) (entries s) := by
   intro s
-  have h := triebuf_refines initMem (Or.inl rfl) ops hok
-  have hm : MemInv s := memInv_run ⟨rfl, rfl, rfl⟩ ops
-  exact ⟨h.2, fun k => lookup_agrees h.1 k (fun t => not_shadowed_of_mem hm _),
-    entries_agrees h.1 (fun key => not_shadowed_of_mem hm key)⟩
+  have h := triebuf_refines initMem (Or.inl rfl) ops
+  exact ⟨h.2, fun k => lookup_agrees h.1 k, entries_agrees h.1⟩
 
 /-! ## 3. Remove / re-add -/
 
 /-- a removed phrase stays absent — from the map, from lookups and from the enumeration — as long as
     it is not added or updated again, whatever else happens (including snapshots) -/
 theorem removed_stays_absent (s : State) (hs : Inv s) (k : Key) (t : Text) (ops : List Op)
-    (hok : ∀ op ∈ ops, OpOk op) (hw : ∀ op ∈ ops, Map.writes (k, t) op = false) :
+    (hw : ∀ op ∈ ops, Map.writes (k, t) op = false) :
     let s' := run (apply s (.remove k t)) ops
     abs s' (k, t) = none ∧ t ∉ texts (lookupAll s' k .standard) ∧ ∀ e ∈ entries s', ¬ (e.1 = k ∧ e.2.text = t) := by
   intro s'
-  have h1 := inv_apply hs (.remove k t) trivial
-  have h2 := run_refines h1 ops hok
+  have h1 := inv_apply hs (.remove k t)
+  have h2 := run_refines h1 ops
   have habs : abs s' (k, t) = none := by
     show abs (run (apply s (.remove k t)) ops) (k, t) = none
     rw [h2.2, abs_apply hs]
@@ -182,66 +130,60 @@ theorem removed_stays_absent (s : State) (hs : Inv s) (k : Key) (t : Text) (ops 
     rw [e1, e2] at hg h
     -- a listed entry is live in the map
     have : ∃ v, abs s' (k, t) = some v := by
-      by_cases hb : ∃ w, ((k, t), w) ∈ s'.btree
-      · obtain ⟨w, hw'⟩ := hb
-        exact ⟨w, (absOver_eq_some h2.1.snap h2.1.bt).mpr ⟨hg, Or.inl hw'⟩⟩
-      · rcases h with ⟨l, hl, el, hp⟩ | ⟨v, hv, _⟩
-        · exact ⟨valOf e.2, (absOver_eq_some h2.1.snap h2.1.bt).mpr
-            ⟨hg, Or.inr ⟨fun w hw' => hb ⟨w, hw'⟩, l, hl, el, e.2, hp, e2, rfl⟩⟩⟩
-        · exact absurd ⟨v, hv⟩ hb
+      rcases h with ⟨⟨l, hl, el, hp⟩, hn⟩ | ⟨v, hv, _⟩
+      · exact ⟨valOf e.2, (absOver_eq_some h2.1.snap h2.1.bt).mpr
+          ⟨hg, Or.inr ⟨hn, l, hl, el, e.2, hp, e2, rfl⟩⟩⟩
+      · exact ⟨v, (absOver_eq_some h2.1.snap h2.1.bt).mpr ⟨hg, Or.inl hv⟩⟩
     obtain ⟨v, hv⟩ := this
     rw [habs] at hv; exact absurd hv (by simp)
 
-/-- … and adding it again makes it visible again, with the newly written value (F09, fixed) -/
+/-- a pending entry that is not under a tombstone is returned by the exact lookup *as written* -/
+theorem pending_is_reported (s : State) (hs : Inv s) (k : Key) (t : Text) (v : Val)
+    (hbt : ((k, t), v) ∈ s.btree) (hg : (k, t) ∉ s.grave) :
+    mkPhrase t v ∈ lookupAll s k .standard := by
+  rw [lookupAll_std_eq_cands hs k]
+  exact (mem_cands hs).mpr ⟨hg, Or.inr ⟨v, hbt, rfl⟩⟩
+
+/-- … and adding it again makes it visible again, with the newly written value (F09, F10 fixed; before
+    8e6d504 the value was only guaranteed for a key that was not also persisted) -/
 theorem readd_visible_again (s : State) (hs : Inv s) (k : Key) (t : Text) (f : Nat) (tm : Option Nat)
-    (hr : inRange t = true) (ha : abs s (k, t) = none) :
+    (ha : abs s (k, t) = none) :
     let s' := apply s (.add k t f tm)
     addOk s k t = true ∧ abs s' (k, t) = some (f, tm.getD 0) ∧ t ∈ texts (lookupAll s' k .standard) ∧
-      (shadowed s' (k, t) = false → { text := t, freq := f, lastUsed := some (tm.getD 0) } ∈ lookupAll s' k .standard) := by
+      { text := t, freq := f, lastUsed := some (tm.getD 0) } ∈ lookupAll s' k .standard := by
   intro s'
-  have h1 : Inv s' := inv_apply hs (.add k t f tm) hr
+  have h1 : Inv s' := inv_apply hs (.add k t f tm)
   have habs : abs s' (k, t) = some (f, tm.getD 0) := by
     show abs (apply s (.add k t f tm)) (k, t) = _
     rw [abs_apply hs]; exact Map.apply_add_absent ha f tm
   have hin := ((lookup_texts h1 k).2 t).mpr ⟨_, habs⟩
   refine ⟨by rw [addOk_eq hs]; simp [Map.addOk, ha], habs, hin, ?_⟩
-  intro hsh
-  -- the candidate with text t: with no shadowing it is the pending entry itself
   have hbt : ((k, t), (f, tm.getD 0)) ∈ s'.btree := by
     have : addOk s k t = true := by rw [addOk_eq hs]; simp [Map.addOk, ha]
     show _ ∈ (apply s (.add k t f tm)).btree
     simp only [apply, this, if_true, put]
     exact mem_btInsert.mpr (Or.inl rfl)
-  have hg : (k, t) ∉ s'.grave := by
-    have := (absOver_eq_some h1.snap h1.bt).mp habs
-    exact this.1
-  have hc : mkPhrase t (f, tm.getD 0) ∈ entriesIterFor s' k .standard :=
-    (mem_cands h1).mpr ⟨hg, Or.inr ⟨_, hbt, rfl⟩⟩
-  obtain ⟨r, hr', er, _⟩ := dedup_max hc
-  have hr2 := mem_of_mem_dedup hr'
-  obtain ⟨_, h⟩ := (mem_cands h1).mp hr2
-  have ert : r.text = t := er
-  rcases h with ⟨l, hl, el, hpl⟩ | ⟨v, hv, hrv⟩
-  · have : shadowed s' (k, t) = true :=
-      (shadowed_iff h1).mpr ⟨hg, ⟨_, hbt⟩, l, hl, el, r, hpl, ert⟩
-    rw [hsh] at this; exact absurd this (by simp)
-  · rw [ert] at hv hrv
-    have := h1.bt.unique hv hbt rfl
-    simp only [Prod.mk.injEq, true_and] at this
-    have e : r = mkPhrase t (f, tm.getD 0) := by rw [hrv, this]
-    show mkPhrase t (f, tm.getD 0) ∈ dedup (entriesIterFor s' k .standard)
-    rw [← e]; exact hr'
+  have hg : (k, t) ∉ s'.grave := ((absOver_eq_some h1.snap h1.bt).mp habs).1
+  exact pending_is_reported s' h1 k t (f, tm.getD 0) hbt hg
 
-/-- `update_phrase` always makes the phrase live with the written value (upsert) -/
-theorem update_visible (s : State) (hs : Inv s) (k : Key) (t : Text) (f tm : Nat) (hr : inRange t = true) :
+/-- `update_phrase` always makes the phrase live with the written value (upsert), and the exact lookup
+    reports exactly that value — also when the phrase is already persisted (F10 fixed) -/
+theorem update_visible (s : State) (hs : Inv s) (k : Key) (t : Text) (f tm : Nat) :
     let s' := apply s (.update k t f tm)
-    abs s' (k, t) = some (f, tm) ∧ t ∈ texts (lookupAll s' k .standard) := by
+    abs s' (k, t) = some (f, tm) ∧ t ∈ texts (lookupAll s' k .standard) ∧
+      { text := t, freq := f, lastUsed := some tm } ∈ lookupAll s' k .standard := by
   intro s'
-  have h1 : Inv s' := inv_apply hs (.update k t f tm) hr
+  have h1 : Inv s' := inv_apply hs (.update k t f tm)
   have habs : abs s' (k, t) = some (f, tm) := by
     show abs (apply s (.update k t f tm)) (k, t) = _
     rw [abs_apply hs]; exact Map.apply_update _ k t f tm
-  exact ⟨habs, ((lookup_texts h1 k).2 t).mpr ⟨_, habs⟩⟩
+  refine ⟨habs, ((lookup_texts h1 k).2 t).mpr ⟨_, habs⟩, ?_⟩
+  have hbt : ((k, t), (f, tm)) ∈ s'.btree := by
+    show _ ∈ (apply s (.update k t f tm)).btree
+    simp only [apply, put]
+    exact mem_btInsert.mpr (Or.inl rfl)
+  have hg : (k, t) ∉ s'.grave := ((absOver_eq_some h1.snap h1.bt).mp habs).1
+  exact pending_is_reported s' h1 k t (f, tm) hbt hg
 
 /-! ## 4. Layered -/
 
@@ -346,15 +288,14 @@ theorem layered_over_map (sys : List Dict) (u : State) (m : Map) (k : Key)
 /-- **Layered under any update history**: an in-memory user layer that went through the history `ops`
     of `Layered::{add,update,remove}_phrase`, `flush`, `reopen`; the user's map is
     `Map.empty.run (forwarded ops)` -/
-theorem layered_history (sys : List Dict) (ops : List Op) (hok : ∀ op ∈ ops, OpOk op) (k : Key) :
+theorem layered_history (sys : List Dict) (ops : List Op) (k : Key) :
     let m := Map.empty.run (ops.filter Layered.forwarded)
     let r := Layered.lookupAll (sys ++ [toDict (Layered.runUser initMem ops)]) k .standard
     (texts r).Nodup ∧
     (∀ t, t ∈ texts r ↔ (∃ d ∈ sys, t ∈ texts (d.lookup k .standard)) ∨ ∃ v, m (k, t) = some v) ∧
     (∀ t v, m (k, t) = some v → ∃ p ∈ r, p.text = t ∧ v.1 ≤ p.freq) := by
   intro m r
-  have hok' : ∀ op ∈ ops.filter Layered.forwarded, OpOk op := fun op ho => hok op (List.mem_filter.mp ho).1
-  obtain ⟨habs, hl, _⟩ := mem_answers (ops.filter Layered.forwarded) hok'
+  obtain ⟨habs, hl, _⟩ := mem_answers (ops.filter Layered.forwarded)
   have hu : Layered.runUser initMem ops = run initMem (ops.filter Layered.forwarded) := layered_runUser _ _
   have hlk : IsLookup m k (lookupAll (Layered.runUser initMem ops) k .standard) := by
     have := hl k
@@ -421,14 +362,26 @@ structure Answers (s : State) : Prop where
 /-- full-strength C09 for `TrieBuf`: along every history the dictionary denotes the specified map
     and answers as that map -/
 def C09_full : Prop :=
-  ∀ init, (init = initMem ∨ init = initFile) → ∀ ops : List Op, (∀ op ∈ ops, OpOk op) →
+  ∀ init, (init = initMem ∨ init = initFile) → ∀ ops : List Op,
     abs (run init ops) = Map.empty.run ops ∧ Answers (run init ops)
+
+/-- C09 for the exact lookup and the enumeration — the two answers the property's statement names —
+    at full strength: every history, every state, in-memory or file-backed, no precondition -/
+def C09_exact_full : Prop :=
+  ∀ init, (init = initMem ∨ init = initFile) → ∀ ops : List Op,
+    let s := run init ops
+    abs s = Map.empty.run ops ∧ (∀ k, IsLookup (abs s) k (lookupAll s k .standard)) ∧ IsEntries (abs s) (entries s)
+
+theorem C09_exact : C09_exact_full := by
+  intro init hi ops s
+  have h := triebuf_refines init hi ops
+  exact ⟨h.2, fun k => lookup_agrees h.1 k, entries_agrees h.1⟩
 
 def kCe4 : Key := [10268]      -- ㄘㄜˋ
 def kC : Key := [10240]        -- ㄘ
 def tCe : Text := [28204]      -- 測
 
-/-- F10 witness: add, snapshot, then update the persisted entry with a lower frequency -/
+/-- F10 witness (fixed): add, snapshot, then update the persisted entry with a lower frequency -/
 def witnessF10 : List Op := [.add kCe4 tCe 100 (some 2), .flush, .reopen, .update kCe4 tCe 50 7]
 
 /-- F36 witness (pending half): a pending entry is never matched by prefix -/
@@ -437,27 +390,12 @@ def witnessF36 : List Op := [.add kCe4 tCe 1 (some 2)]
 /-- F36 witness (tombstone half): the prefix lookup ignores the tombstone of a persisted entry -/
 def witnessF36b : List Op := [.add kCe4 tCe 100 (some 2), .flush, .reopen, .remove kCe4 tCe]
 
-/-- F10: the lookup reports the old, larger value although the map (and the next snapshot) hold the new one -/
-theorem update_persisted_lookup_refuted :
-    ¬ IsLookup (abs (run initFile witnessF10)) kCe4 (lookupAll (run initFile witnessF10) kCe4 .standard) := by
-  intro h
-  have h1 : lookupAll (run initFile witnessF10) kCe4 .standard = [{ text := tCe, freq := 100, lastUsed := some 2 }] := by
-    decide
-  have h2 : abs (run initFile witnessF10) (kCe4, tCe) = some (50, 7) := by decide
-  have := h.2.1 { text := tCe, freq := 100, lastUsed := some 2 } (by rw [h1]; simp)
-  rw [h2] at this
-  exact absurd this (by decide)
-
-/-- F10: `entries()` yields the updated entry twice -/
-theorem update_persisted_entries_refuted :
-    ¬ IsEntries (abs (run initFile witnessF10)) (entries (run initFile witnessF10)) := by
-  intro h
-  have h1 : entries (run initFile witnessF10) =
-      [(kCe4, { text := tCe, freq := 100, lastUsed := some 2 }), (kCe4, { text := tCe, freq := 50, lastUsed := some 7 })] := by
-    decide
-  have := h.1
-  rw [h1] at this
-  exact absurd this (by decide)
+/-- F10 regression (fixed by 8e6d504): the lookup reports the new value — before the fix it reported
+    the old, larger one, 100 — and `entries()` yields the updated entry once — before: twice, 100 and 50 -/
+theorem update_persisted_fixed :
+    lookupAll (run initFile witnessF10) kCe4 .standard = [{ text := tCe, freq := 50, lastUsed := some 7 }] ∧
+    entries (run initFile witnessF10) = [(kCe4, { text := tCe, freq := 50, lastUsed := some 7 })] ∧
+    abs (run initFile witnessF10) (kCe4, tCe) = some (50, 7) := by decide
 
 /-- F36: the pending phrase 測 under ㄘㄜˋ is live and matches the prefix ㄘ, yet the prefix lookup is empty -/
 theorem fuzzy_pending_refuted :
@@ -479,50 +417,40 @@ theorem fuzzy_tombstone_witness :
 
 theorem C09_full_refuted : ¬ C09_full := by
   intro h
-  have := (h initFile (Or.inr rfl) witnessF10 (by decide)).2.lookup kCe4
-  exact update_persisted_lookup_refuted this
+  have := (h initMem (Or.inl rfl) witnessF36).2.fuzzy kC (by decide)
+  exact fuzzy_pending_refuted this
 
-/-- **C09 for `TrieBuf`, partial**: along every history the denoted map is the specified one
-    (no exclusion), and every answer is the map's outside *exactly* the classes `UpdatePersisted`
-    (`shadowed`) and `FuzzyOverTombstoneOrPending` (`fuzzyClass`) -/
-theorem triebuf_refines_partial (init : State) (hi : init = initMem ∨ init = initFile) (ops : List Op)
-    (hok : ∀ op ∈ ops, OpOk op) :
+/-- **C09 for `TrieBuf`, partial**: along every history the denoted map is the specified one, every
+    exact lookup and the enumeration are the map's (no exclusion), and every prefix lookup is the map's
+    outside *exactly* the class `FuzzyOverTombstoneOrPending` (`fuzzyClass`) -/
+theorem triebuf_refines_partial (init : State) (hi : init = initMem ∨ init = initFile) (ops : List Op) :
     let s := run init ops
     abs s = Map.empty.run ops ∧
-    (∀ k, (∀ t, shadowed s (k, t) = false) → IsLookup (abs s) k (lookupAll s k .standard)) ∧
-    ((∀ key, shadowed s key = false) → IsEntries (abs s) (entries s)) ∧
-    (∀ q, fuzzyMatch q q = true → fuzzyClass s q = false → (∀ t, shadowed s (q, t) = false) →
+    (∀ k, IsLookup (abs s) k (lookupAll s k .standard)) ∧
+    IsEntries (abs s) (entries s) ∧
+    (∀ q, fuzzyMatch q q = true → fuzzyClass s q = false →
       IsFuzzyLookup fuzzyMatch (abs s) q (lookupAll s q .fuzzyPartialPrefix)) := by
   intro s
-  have h := triebuf_refines init hi ops hok
-  exact ⟨h.2, fun k hn => lookup_agrees h.1 k hn, fun hn => entries_agrees h.1 hn,
-    fun q hq hc hn => fuzzy_agrees h.1 q hq hc hn⟩
+  have h := triebuf_refines init hi ops
+  exact ⟨h.2, fun k => lookup_agrees h.1 k, entries_agrees h.1, fun q hq hc => fuzzy_agrees h.1 q hq hc⟩
 
 /-! ### 6a. The snapshot-adoption path: after `flush` + `reopen` every answer is exact
 
-The two known-finding classes only exist *between* a modification of a file-backed dictionary and the
-adoption of the next snapshot.  `Settled` = nothing pending, no tombstone. -/
+The known-finding class only exists *between* a modification of a dictionary and the adoption of the
+next snapshot.  `Settled` = nothing pending, no tombstone. -/
 
 /-- a settled state answers every query — exact lookup, enumeration, prefix lookup — as its map -/
 theorem settled_answers (s : State) (hs : Inv s) (h : Settled s) : Answers s :=
-  ⟨fun k => lookup_agrees hs k (fun _ => settled_not_shadowed h _),
-   entries_agrees hs (fun key => settled_not_shadowed h key),
-   fun q hq => fuzzy_agrees hs q hq (settled_not_fuzzyClass h q) (fun _ => settled_not_shadowed h _)⟩
+  ⟨fun k => lookup_agrees hs k, entries_agrees hs, fun q hq => fuzzy_agrees hs q hq (settled_not_fuzzyClass h q)⟩
 
 /-- **flush and reopen**: after *any* history on a file-backed dictionary, `reopen; flush; reopen`
     (let a writer in flight finish, take a snapshot, adopt it) leaves the specified map unchanged and
     from then on all answers are the map's, with no exclusion -/
-theorem adoption_answers (ops : List Op) (hok : ∀ op ∈ ops, OpOk op) :
+theorem adoption_answers (ops : List Op) :
     let s := run initFile (ops ++ settleOps)
     abs s = Map.empty.run ops ∧ Answers s := by
   intro s
-  have hok' : ∀ op ∈ ops ++ settleOps, OpOk op := by
-    intro op ho
-    rcases List.mem_append.mp ho with h | h
-    · exact hok op h
-    · simp only [settleOps, List.mem_cons, List.not_mem_nil, or_false] at h
-      rcases h with rfl | rfl | rfl <;> trivial
-  have h := triebuf_refines initFile (Or.inr rfl) (ops ++ settleOps) hok'
+  have h := triebuf_refines initFile (Or.inr rfl) (ops ++ settleOps)
   have hq : Quiet (run initFile ops) := quiet_run quiet_initFile ops
   have hf : (run initFile ops).fileBacked = true := by rw [fileBacked_run]; rfl
   have hset : Settled s := by
@@ -532,17 +460,11 @@ theorem adoption_answers (ops : List Op) (hok : ∀ op ∈ ops, OpOk op) :
   rw [h.2, Map.run_append, Map.run_idle _ settleOps (by decide)]
 
 /-- **close and open again** (`Drop`: sync, flush, join; then `TrieBuf::open`): same conclusion -/
-theorem close_open_answers (ops : List Op) (hok : ∀ op ∈ ops, OpOk op) :
+theorem close_open_answers (ops : List Op) :
     let s := run initFile (ops ++ [.closeOpen])
     abs s = Map.empty.run ops ∧ Answers s := by
   intro s
-  have hok' : ∀ op ∈ ops ++ [Op.closeOpen], OpOk op := by
-    intro op ho
-    rcases List.mem_append.mp ho with h | h
-    · exact hok op h
-    · simp only [List.mem_cons, List.not_mem_nil, or_false] at h
-      rw [h]; trivial
-  have h := triebuf_refines initFile (Or.inr rfl) (ops ++ [.closeOpen]) hok'
+  have h := triebuf_refines initFile (Or.inr rfl) (ops ++ [.closeOpen])
   have hf : (run initFile ops).fileBacked = true := by rw [fileBacked_run]; rfl
   have hset : Settled s := by
     show Settled (run initFile (ops ++ [.closeOpen]))
@@ -552,18 +474,17 @@ theorem close_open_answers (ops : List Op) (hok : ∀ op ∈ ops, OpOk op) :
 
 /-- **Layered with a file-backed user layer**, after any history followed by `reopen; flush; reopen`
     through `Layered` (all three are forwarded): union with the user's map, no exclusion -/
-theorem layered_history_file (sys : List Dict) (ops : List Op) (hok : ∀ op ∈ ops, OpOk op) (k : Key) :
+theorem layered_history_file (sys : List Dict) (ops : List Op) (k : Key) :
     let m := Map.empty.run (ops.filter Layered.forwarded)
     let r := Layered.lookupAll (sys ++ [toDict (Layered.runUser initFile (ops ++ settleOps))]) k .standard
     (texts r).Nodup ∧
     (∀ t, t ∈ texts r ↔ (∃ d ∈ sys, t ∈ texts (d.lookup k .standard)) ∨ ∃ v, m (k, t) = some v) ∧
     (∀ t v, m (k, t) = some v → ∃ p ∈ r, p.text = t ∧ v.1 ≤ p.freq) := by
   intro m r
-  have hok' : ∀ op ∈ ops.filter Layered.forwarded, OpOk op := fun op ho => hok op (List.mem_filter.mp ho).1
   have hu : Layered.runUser initFile (ops ++ settleOps) = run initFile (ops.filter Layered.forwarded ++ settleOps) := by
     rw [layered_runUser, List.filter_append]
     rfl
-  obtain ⟨habs, ha⟩ := adoption_answers (ops.filter Layered.forwarded) hok'
+  obtain ⟨habs, ha⟩ := adoption_answers (ops.filter Layered.forwarded)
   have hlk : IsLookup m k (lookupAll (Layered.runUser initFile (ops ++ settleOps)) k .standard) := by
     have := ha.lookup k
     rw [habs, ← hu] at this; exact this
@@ -577,24 +498,19 @@ theorem mem_fuzzy_is_exact (s : State) (h : MemInv s) (q : Key) :
   rw [h.2.1]
   rfl
 
-/-- the two classes are *transient*: whatever state a file-backed dictionary is in, they are left by
+/-- the class is *transient*: whatever state a file-backed dictionary is in, it is left by
     `reopen; flush; reopen` -/
 theorem classes_are_transient (s : State) (hq : Quiet s) (hf : s.fileBacked = true) :
-    (∀ key, shadowed (run s settleOps) key = false) ∧ ∀ q, fuzzyClass (run s settleOps) q = false :=
-  ⟨fun key => settled_not_shadowed (settled_settle hq hf) key,
-   fun q => settled_not_fuzzyClass (settled_settle hq hf) q⟩
+    ∀ q, fuzzyClass (run s settleOps) q = false :=
+  fun q => settled_not_fuzzyClass (settled_settle hq hf) q
 
-/-- the precondition `OpOk` is needed: a pending phrase that begins with U+10FFFF is outside the range
-    `entries_iter_for` scans, so it is live (and enumerated) but never looked up -/
-theorem max_code_point_phrase_refuted :
-    ¬ IsLookup (abs (run initMem [.add kCe4 [0x10FFFF] 1 none])) kCe4
-        (lookupAll (run initMem [.add kCe4 [0x10FFFF] 1 none]) kCe4 .standard) := by
-  intro h
-  have h1 : lookupAll (run initMem [.add kCe4 [0x10FFFF] 1 none]) kCe4 .standard = [] := by decide
-  have h2 : abs (run initMem [.add kCe4 [0x10FFFF] 1 none]) (kCe4, [0x10FFFF]) = some (1, 0) := by decide
-  obtain ⟨p, hp, _⟩ := h.2.2 _ _ h2
-  rw [h1] at hp
-  exact absurd hp (by simp)
+/-- MaxCodePointPhrase regression (fixed by 2c45871): a pending phrase that begins with U+10FFFF is looked
+    up like any other — before the fix it was outside the range `entries_iter_for` scanned (exclusive
+    bound `"\u{10FFFF}"`): live and enumerated, but never returned by a lookup, and `add_phrase` accepted
+    it a second time -/
+theorem max_code_point_phrase_fixed :
+    lookupAll (run initMem [.add kCe4 [0x10FFFF] 1 none]) kCe4 .standard = [{ text := [0x10FFFF], freq := 1, lastUsed := some 0 }] ∧
+    addOk (run initMem [.add kCe4 [0x10FFFF] 1 none]) kCe4 [0x10FFFF] = false := by decide
 
 /-! ## 7. The SQLite user dictionary (feature `sqlite`; relational model, `Model/SqliteDict.lean`)
 
@@ -729,9 +645,9 @@ example : lookupAll (run initMem [.add kCe4 tCe 1 (some 2), .remove kCe4 tCe, .a
 example : lookupAll (run initFile [.add kCe4 tCe 1 (some 2), .flush, .reopen, .remove kCe4 tCe, .flush, .reopen,
     .update kCe4 tCe 5 5]) kCe4 .standard = [{ text := tCe, freq := 5, lastUsed := some 5 }] := by decide
 
-/-- the F10 witness is in class UpdatePersisted, a state after adoption is not -/
-example : shadowed (run initFile witnessF10) (kCe4, tCe) = true := by decide
-example : shadowed (run initFile (witnessF10 ++ [.flush, .reopen])) (kCe4, tCe) = false := by decide
+/-- the F10 witness: the key is both persisted and pending; after adoption it is persisted only — the
+    answer is the same -/
+example : (run initFile witnessF10).btree ≠ [] ∧ (run initFile witnessF10).snap ≠ [] := by decide
 example : lookupAll (run initFile (witnessF10 ++ [.flush, .reopen])) kCe4 .standard
     = [{ text := tCe, freq := 50, lastUsed := some 7 }] := by decide
 /-- the F36 witness is in class FuzzyOverTombstoneOrPending; once persisted it is answered -/
@@ -739,7 +655,6 @@ example : fuzzyClass (run initMem witnessF36) kC = true := by decide
 example : fuzzyClass (run initFile (witnessF36 ++ [.flush, .reopen])) kC = false ∧
     lookupAll (run initFile (witnessF36 ++ [.flush, .reopen])) kC .fuzzyPartialPrefix
       = [{ text := tCe, freq := 1, lastUsed := some 2 }] := by decide
-example : ∀ op ∈ witnessF10, OpOk op := by decide
 /-- adoption: the F10 and F36 witnesses followed by `reopen; flush; reopen` are settled and answered exactly -/
 example : Settled (run initFile (witnessF10 ++ settleOps)) ∧ Settled (run initFile (witnessF36b ++ settleOps)) := by decide
 example : lookupAll (run initFile (witnessF36b ++ settleOps)) kC .fuzzyPartialPrefix = [] := by decide
